@@ -244,10 +244,8 @@ def execute_radio(ctx):
                                           pi, ph['via'] if pi else 'connect', key, r['drop'], len(seen), len(answered),
                                           getattr(drv, 'needs_resending', None)))
                         return
-                    gaps = [b - a for a, b in zip(seen, seen[1:])]
-                    if any(g < r['timeout'] - 0.02 for g in gaps[:r['drop']]):
-                        ctx.violation('1', 'retransmitted-too-early', 'request %r: gaps %r, timeout %.2f' % (key, gaps, r['timeout']))
-                        return
+                    # (the retransmission interval is judged on SimLink, where the instant a packet is handed to the link
+                    # is observable; here a packet waits in the driver's queue for the radio loop)
             if cf._answer_patterns:
                 ctx.violation('1', 'request-never-answered', 'phase %d: still pending %r' % (pi, sorted(cf._answer_patterns)))
                 return
@@ -360,8 +358,17 @@ def execute(ctx):
                     o['keys'] = ks
                 return ks
 
+            def __delitem__(self, k):
+                v = dict.get(self, k)
+                dict.__delitem__(self, k)
+                self._removed(k, v)
+
             def pop(self, k, *d):
                 v = dict.pop(self, k, *d)
+                self._removed(k, v)
+                return v
+
+            def _removed(self, k, v):
                 if v is not None:
                     o = obs_by_thread.get(P.get_ident())
                     if o is not None:
@@ -377,7 +384,6 @@ def execute(ctx):
                     else:
                         for m in model.pop(k, []):
                             ev.append(('answered', sim.now, m['pk'], k))
-                return v
         state['fresh_table'] = lambda: ObservedDict()
         cf._answer_patterns = ObservedDict()
         cbs = cf.packet_received.callbacks
